@@ -16,11 +16,13 @@ REPLAY_BIN = os.path.join(VERIF, ".build", "replay", "debug", "h3-verif-replay")
 
 SPECS = {
     # property -> list of (spec name, module, tiers)
-    "C03": [("c03_request_stream_sequences", "c03")],
-    "C04": [("c04_control_stream_rules", "c04")],
-    "C07": [("c07_stream_scoped_faults", "c03")],
+    "C02": [("c02_frame_decoder_memo", "c02m")],
+    "C03": [("c03_request_stream_sequences", "c03"), ("c02_frame_decoder_memo", "c02m")],
+    "C04": [("c04_control_stream_rules", "c04"), ("c02_frame_decoder_memo", "c02m")],
+    "C07": [("c07_stream_scoped_faults", "c03"), ("c02_frame_decoder_memo", "c02m")],
     "C05": [("c05_interleavings", "c05")],
     "C08": [("c08_goaway_rules", "c08")],
+    "C11": [("c11_static_table_lookups", "c11m")],
 }
 
 
